@@ -62,9 +62,10 @@ def evaluate(c):
     if len(m.pulses) == 0:
         return dict(viol=[], skipped='no-pulse', evals=0)
     m.compute_impedance_matrix()
+    pgv = geom.pulse_geometry_violations(m)
     k = 2 * np.pi / m.wavelen
     srm = 1e-4 * m.wavelen
-    viol, worst, n, wn = [], 0.0, 0, None
+    viol, worst, n, wn = [(a, '%s: %s' % (name, b)) for a, b in pgv[:3]], 0.0, 0, None
     canon, nontriv = [], []
     cen, seglen = [], []
     for p in m.pulses:
